@@ -174,6 +174,8 @@ def node_text(n, lazy, r):
     if k == "rep":
         kind, lo, hi = n[2], n[3], n[4]
         q = kind if kind in "*+?" else "{%d}" % lo if kind == "{n}" else "{%d,}" % lo if kind == "{n,}" else "{,%d}" % hi if kind == "{,m}" else "{%d,%d}" % (lo, hi)
+        if "," in q and r is not None and r.random() < 0.2:
+            q = q.replace(",", " " * r.choice([0, 0, 1]) + "," + " " * r.choice([0, 1, 1, 2]))   # re_lexer.l: blanks are allowed around the comma of an interval
         return node_text(n[1], lazy, r) + q + ("?" if lazy else "")
     return {"bol": "^", "eol": "$", "wb": "\\b", "nwb": "\\B"}[k]
 
